@@ -29,6 +29,7 @@ type vfC05Op struct {
 	Mode  uint32 `json:",omitempty"` // os.FileMode bits
 	N     int64  `json:",omitempty"`
 	Pat   string `json:",omitempty"`
+	Deco  int    `json:",omitempty"` // lexical decoration of P: 1 "./P", 2 "P/", 3 "x/../P", 4 "P/.", 5 "P//"
 }
 
 type vfCaseC05 struct {
@@ -145,12 +146,32 @@ func vfRunC05(ctx *vfCtx, c vfCaseC05) {
 		return p
 	}
 	tp := func(p string) string { return rootT + "/" + p }
+	deco := func(p string, d int) string {
+		switch d {
+		case 1:
+			return "./" + p
+		case 2:
+			return p + "/"
+		case 3:
+			return "zz/../" + p
+		case 4:
+			return p + "/."
+		case 5:
+			return p + "//"
+		}
+		return p
+	}
 	interesting := false
 	done, res := vfCall(func() (string, error) {
 		for i, op := range c.Ops {
 			var gotErr, wantErr error
 			var got, want string
 			ctx.Class("op=" + op.Op)
+			if op.Deco != 0 && op.Op != "Glob" && op.Op != "Walk" && op.Op != "RealPath" && op.Op != "MkdirAll" && op.Op != "RemoveAll" {
+				// the same decorated string goes to sftp (below the served root) and to package os (below the twin root)
+				op.P = deco(op.P, op.Deco)
+				ctx.Class("decorated-path")
+			}
 			switch op.Op {
 			case "Mkdir":
 				gotErr, wantErr = cl.Mkdir(sp(op.P, op.Abs)), os.Mkdir(tp(op.P), 0o755)
